@@ -127,6 +127,12 @@ Definition check_drv (prop : Z) (inp impl : sx) : sx :=
                     else if (prop =? 2) && (exp_ttl =? -2) && negb (cls_i =? 2) then [2; 2]
                     else [] in
                   let spec_fail := if (prop =? 2) && (0 <=? exp_ttl) && (cls_i =? 1) && negb ((ttl_i =? exp_ttl) && bytes_eqb ip_i exp_ip) then [2; 1] else spec_fail in
+                  (* C11: a reply to another concurrent run's probe never becomes a hop of this run (relaxed quoted-source
+                     checking to one target is the stated residue: such runs are told apart by the ISN only) *)
+                  let spec_fail := match spec_fail with
+                                   | _ :: _ => spec_fail
+                                   | [] => if (prop =? 11) && (exp_ttl =? -4) && (cls_i =? 1) && negb (c_loosen c) then [11; 1] else []
+                                   end in
                   (* C12 (and C02 for the catalogue forms): the installed capture filter lets through every frame the matcher turns into a hop *)
                   let spec_fail := match spec_fail with
                                    | _ :: _ => spec_fail
